@@ -276,6 +276,27 @@ def run_case(case):
             if not np.array_equal((v1[p_ab] * s_ab)[p_bc] * s_bc, v1[p_ac] * s_ac):
                 v.append(_viol("conv-compose", f"random {keys}: A->B->C differs from A->C"))
             counters["convert_calls"] += 3
+            # the SAME dictionary objects again after editing them in place: the result is a function of their contents at
+            # the time of the call (a table damaged or repaired between two conversions must be seen as it is)
+            key0 = keys[int(rng.integers(len(keys)))]
+            if len(ca[key0]) > 1:
+                ca[key0].reverse()
+                first = ca[key0][0]
+                ca[key0][0] = first[1:] if first.startswith("-") else "-" + first
+                cb[key0] = cb[key0][1:] + cb[key0][:1]
+                v2_, _nt = check_conversion(shells, ca, cb, rng, f"random {keys} after in-place edit of {key0}", semantic=False)
+                v += v2_
+                counters["convert_calls"] += 4
+                counters["inplace_edits"] = counters.get("inplace_edits", 0) + 1
+                saved = cb[key0][0]
+                cb[key0][0] = cb[key0][1]  # now a duplicate: must be rejected although the same objects converted fine before
+                try:
+                    res = _convert(shells, ca, cb)
+                    v.append(_viol("corruption-accepted", f"random {keys}: label list of {key0} damaged in place (duplicate) after a successful "
+                                   f"conversion was accepted and mapped to {res[0].tolist()[:12]}"))
+                except Exception:
+                    counters["rejections"] = counters.get("rejections", 0) + 1
+                cb[key0][0] = saved
             if v:
                 for x in v:
                     x["conventions"] = {"a": {str(k): val for k, val in ca.items()}, "b": {str(k): val for k, val in cb.items()}}
